@@ -12,6 +12,7 @@ use vkit::refmath as rf;
 use vkit::vk::{self, MatN};
 use vkit::*;
 
+pub mod exact;
 pub mod wide;
 
 fn no_zero_and_asym<S: Dom, const N: usize>(a: &[[S; N]; N], upto: usize) -> bool {
@@ -221,6 +222,17 @@ pub fn property() -> Property {
     tape!("det2-wide-f32", wd, 80, 4_000, 150_000, wide::det2_wide::<f32>);
     tape!("det3-wide-f32", wd, 80, 4_000, 150_000, wide::det3_wide::<f32>);
     tape!("det4-wide-f32", wd, 80, 4_000, 150_000, wide::det4_wide::<f32>);
+    // exact-arithmetic regime (src/exact.rs): float domains only
+    let xe = "EXACT-ARITHMETIC regime: small dyadic matrices P1 L diag(s, 2^-e x) U P2 (rank p plus a tiny update: rank one plus tiny, one nearly dependent line, block form [[A,B],[C,CA^-1B+dX]]) at the largest e for which every product of entries from distinct rows/columns and every sub-sum of the signed monomials of every minor is exactly representable; the determinant nearly cancels (down to one unit of the last place of its terms) but every evaluation is exact: determinant() must equal the exact value bit for bit, also transposed / layout-converted / with rows and columns scaled by powers of two";
+    tape!("det2-exact-f32", xe, 64, 1_500, 100_000, exact::det2_exact::<f32>);
+    tape!("det3-exact-f32", xe, 64, 1_500, 100_000, exact::det3_exact::<f32>);
+    tape!("det4-exact-f32", xe, 96, 2_500, 150_000, exact::det4_exact::<f32>);
+    tape!("det2-exact-f64", xe, 64, 1_500, 100_000, exact::det2_exact::<f64>);
+    tape!("det3-exact-f64", xe, 64, 1_500, 100_000, exact::det3_exact::<f64>);
+    tape!("det4-exact-f64", xe, 96, 2_500, 150_000, exact::det4_exact::<f64>);
+    let xi = "EXACT-ARITHMETIC regime, inverses: on the same nearly singular but exactly evaluable 4x4 matrices inverted()/invert() must return the exact adjugate over the exact determinant (exactly when det is a power of two, within 2 eps = reciprocal + product rounding otherwise), both layouts, scaled by powers of two; on axis permutation * scales +-2^k + dyadic translation all three inverses (+ in-place) must be exact";
+    tape!("inverse-exact-f32", xi, 96, 4_000, 200_000, exact::inverse_exact::<f32>);
+    tape!("inverse-exact-f64", xi, 96, 4_000, 200_000, exact::inverse_exact::<f64>);
     Property {
         id: "C06",
         rule: "generated matrices with small rational / float entries (general), rational rotations from integer quaternions times translation (rigid), times per-axis scale of either sign (TRS); singular matrices are discarded and counted; non-trivial = no zero entry in the upper-left 3x3 (whole matrix for determinants), A != A^T, and non-uniform scale for TRS; distinct = distinct consumed tape prefix. Regime checks (*-structured, *-wide): an exact rational base matrix of moderate magnitude from a labelled structured family, times an exact power-of-two row/column scaling M' = diag(2^r) M diag(2^c) (all entries; linear part and translation of an affine matrix independently; per-axis scale exponents over the whole documented domain of the affine inverse; per row and column for determinants); vek's result is scaled back exactly and compared with the exact rational inverse / determinant at the base level. Non-trivial there = at most 5 zeros in the upper-left 3x3, A != A^T and (floats) tolerance <= |inverse|/64 (structured); rotation without zero entry and non-uniform scale resp. non-zero translation (TRS / rigid wide); fewer than N*N-N zero entries and A != A^T (determinants)",
